@@ -120,12 +120,29 @@ class SpyNet(Net):
 
             def canceller(dd):
                 self.sim.obs("bootCancel %d" % j)
-                return orig(dd)
+                orig(dd)
+                self._cancel_style(dd, host, port)
 
             d._canceller = canceller
-        elif p is not None:
-            p.boot = None
+        else:
+            if p is not None:
+                p.boot = None
+            orig2 = d._canceller
+
+            def canceller2(dd):
+                orig2(dd)
+                self._cancel_style(dd, host, port)
+
+            d._canceller = canceller2
         return d
+
+    def _cancel_style(self, dd, host, port):
+        """how the endpoint reports a cancelled connect(): a bare Deferred yields defer.CancelledError;
+        Twisted's TCP endpoints errback with error.ConnectingCancelledError (not a CancelledError)"""
+        if self.sim.cancel_style == "connecting":
+            from twisted.internet import error
+            from harness.sim.world import Addr
+            dd.errback(error.ConnectingCancelledError(Addr(host, port)))
 
 
 def make_spy(sim):
@@ -254,7 +271,8 @@ class _Step(object):
         assert s.depth == 0, "nested step %s inside %s" % (self.line, s.cur_line)
         s.depth = 1
         s.cur_line = self.line
-        s.cur_obs = []
+        s.cur_obs = s.pending_annot
+        s.pending_annot = []
         s.cur_env = {"sh": [], "sd": []}
         return self
 
@@ -275,7 +293,8 @@ class _Step(object):
 
 
 class Sim(object):
-    def __init__(self, timeout_ms=10000, disconnect_on_timeout=False, hosts=(("boot", 9092),), shuffle_seed=0):
+    def __init__(self, timeout_ms=10000, disconnect_on_timeout=False, hosts=(("boot", 9092),), shuffle_seed=0,
+                 hold_closes=False, cancel_style="plain"):
         import afkak.client as C
         from afkak import KafkaClient
 
@@ -297,10 +316,15 @@ class Sim(object):
         self.nops = 0
         self.boot_conns = {}  # j -> Conn
         self.stray = []  # observations outside any step (must stay empty)
+        self.pending_annot = []
         self.payload_ids = {}  # id(payload object) -> (op, index); the objects are kept alive in self.ops
         self.unaware_ids = {}
         self.close_log_idx = None
         self.boot_meta_all = {}  # bootstrap attempt j -> its metadata request asked for all topics
+        self.hold_closes = hold_closes  # connection-closed notifications are delivered only by `notify`
+        self.cancel_style = cancel_style
+        self.released = set()  # cids whose close notification may be delivered
+        self._install_conn_hook()
         self.shuffle_rng = _random.Random(shuffle_seed)
         self._orig_bc = C._KafkaBrokerClient
         self._orig_random = C.random
@@ -332,6 +356,14 @@ class Sim(object):
     def obs(self, line):
         if self.cur_obs is None:
             self.stray.append(line)
+        else:
+            self.cur_obs.append(line)
+
+    def annot(self, line):
+        """an annotation for the monitors (not an observation the model reproduces); outside a step it is
+        attached to the next step"""
+        if self.cur_obs is None:
+            self.pending_annot.append(line)
         else:
             self.cur_obs.append(line)
 
@@ -389,7 +421,8 @@ class Sim(object):
                 used = set()
                 fl = []
                 for p, f in r.value.failed_payloads:
-                    i = next(i for i, pl in enumerate(op["payload_objs"]) if pl is p and i not in used)
+                    cands = [i for i, pl in enumerate(op["payload_objs"]) if pl is p]
+                    i = next((i for i in cands if i not in used), cands[0] if cands else -1)
                     used.add(i)
                     fl.append("%d:%s" % (i, kind_of(f)))
                 return "failedPayloads %s %s" % (CC.ints(tags), CC.lst(fl))
@@ -422,6 +455,8 @@ class Sim(object):
     def api_load(self, topics):
         o = self.new_op()
         with self.step("load %d %s" % (o, CC.lst(topics))):
+            # the broker-unaware request this load makes uses the next correlation id
+            self.obs("t-uop %d %d" % (self.unaware_id((self.client.correlation_id + 1) % 2**31), o))
             try:
                 d = self.client.load_metadata_for_topics(*topics)
             except Exception as e:  # synchronous raise
@@ -502,7 +537,7 @@ class Sim(object):
                 self.obs("raised %d AttributeError" % o)
                 d = None
             if d is not None:
-                self.ops[o] = {"d": d, "result": None}
+                self.ops[o] = {"d": d, "result": None, "is_close": True}
                 d.addBoth(lambda r: self.obs("closeFired %d" % o) or None)
         self.settle()
         return o
@@ -513,8 +548,25 @@ class Sim(object):
 
     # ---- environment commands
     def settle(self):
-        """move bytes; connection-lost notifications reach the client here (their own steps)"""
-        self.net.flush()
+        """move bytes; connection-lost notifications reach the client here (their own steps).
+        With `hold_closes`, a connection the client has told to close is not pumped (so neither end
+        sees it go away) until `notify` releases it."""
+        moved = True
+        while moved:
+            moved = False
+            for c in list(self.net.conns):
+                if self.hold_closes and (c.ct.disconnecting or c.st.disconnecting) and c.cid not in self.released and not c.ct.disconnected:
+                    continue
+                if c.pump.flush():
+                    moved = True
+
+    def held(self):
+        return [c for c in self.net.conns if (c.ct.disconnecting or c.st.disconnecting) and not c.ct.disconnected and c.cid not in self.released]
+
+    def notify(self, conn):
+        """deliver the connection-closed notification of a held connection"""
+        self.released.add(conn.cid)
+        self.settle()
 
     def advance(self, dt):
         with self.step("advance %s" % rat(Fraction(dt).limit_denominator(10**6))):
@@ -535,43 +587,68 @@ class Sim(object):
         self.settle()
         return conn
 
-    def _accept(self, p, j):
-        sim = self
-        # instrument the client side transport of bootstrap connections before the protocol sees it
-        orig_build = p.factory.buildProtocol
-        conn = p.accept() if j is None else None
-        if j is not None:
-            self.last_boot_write = j
-            # accept() builds the Conn and fires the connect Deferred; hook write/lose through the Conn class
-            import harness.sim.world as WW
+    def _install_conn_hook(self):
+        """every Conn created for this Sim reports, synchronously, what the client does to its transport"""
+        import harness.sim.world as WW
 
+        sim = self
+        if getattr(WW.Conn, "_verif_hooked", None) is None:
             orig_init = WW.Conn.__init__
 
-            def init(cself, *a, **kw):
-                orig_init(cself, *a, **kw)
-                ow, ol = cself.ct.write, cself.ct.loseConnection
-                state = {"w": False}
-
-                def write(data):
-                    if not state["w"]:
-                        state["w"] = True
-                        sim.obs("bootWrite %d" % j)
-                    return ow(data)
-
-                def lose(*a2, **k2):
-                    sim.obs("bootLose %d" % j)
-                    return ol(*a2, **k2)
-
-                cself.ct.write, cself.ct.loseConnection = write, lose
+            def init(cself, net, *a, **kw):
+                orig_init(cself, net, *a, **kw)
+                hook = getattr(net, "conn_created", None)
+                if hook is not None:
+                    hook(cself)
 
             WW.Conn.__init__ = init
+            WW.Conn._verif_hooked = True
+
+        def created(conn):
+            ow, ol = conn.ct.write, conn.ct.loseConnection
+            state = {"w": False}
+
+            def write(data):
+                if sim.close_log_idx is not None:
+                    sim.annot("t-net write conn=%d bytes=%d" % (conn.cid, len(data)))
+                j = sim.accepting_boot
+                if j is None:
+                    j = getattr(conn, "boot", None)
+                if j is not None and not state["w"]:
+                    state["w"] = True
+                    sim.obs("bootWrite %d" % j)
+                elif j is None and len(data) >= 12:
+                    corr = int.from_bytes(data[8:12], "big", signed=True)
+                    for bc in sim.bcs:
+                        if bc.proto is conn.client_protocol and corr in bc.k_by_corr:
+                            sim.annot("t-wrote %d %d" % (bc.k_by_corr[corr], conn.cid))
+                return ow(data)
+
+            def lose(*a2, **k2):
+                j = getattr(conn, "boot", None)
+                if j is not None:
+                    sim.obs("bootLose %d" % j)
+                else:
+                    sim.annot("t-lose %d" % conn.cid)
+                return ol(*a2, **k2)
+
+            conn.ct.write, conn.ct.loseConnection = write, lose
+
+        self.net.conn_created = created
+        self.accepting_boot = None
+
+    def _accept(self, p, j):
+        if j is not None:
+            self.last_boot_write = j
+            self.accepting_boot = j
             try:
                 conn = p.accept()
             finally:
-                WW.Conn.__init__ = orig_init
+                self.accepting_boot = None
             conn.boot = j
             self.boot_conns[j] = conn
         else:
+            conn = p.accept()
             conn.boot = None
         return conn
 
@@ -635,9 +712,12 @@ class Sim(object):
         if j is not None and self.boot_live(j):
             with self.step("bootlost %d" % j):
                 conn.drop()
+                self.released.add(conn.cid)
                 conn.flush()
         else:
+            self.annot("t-lose %d" % conn.cid)  # the connection is going away (dropped by the broker/network)
             conn.drop()
+            self.released.add(conn.cid)
             conn.flush()
         self.settle()
 
@@ -663,8 +743,6 @@ class Sim(object):
             for e in self.net.log[self.close_log_idx:]:
                 if e[0] == "connect":
                     lines.append("t-net connect %s %s" % (e[1], e[2]))
-                elif e[0] == "frame":
-                    lines.append("t-net frame conn=%d bytes=%d" % (e[1], len(e[2])))
         return lines
 
 
